@@ -17,7 +17,7 @@ import time
 VERIF = os.path.dirname(os.path.abspath(__file__))
 REPO = os.environ.get("MECH_REPO", "/repo")
 CACHE = os.path.join(VERIF, "cache")
-SCRATCH = os.environ.get("MECH_SCRATCH", "/tmp/mechverif-scratch")
+SCRATCH = os.environ.get("MECH_SCRATCH", "/tmp/mechverif-scratch-" + hashlib.sha256(VERIF.encode()).hexdigest()[:8])
 DRIVER = os.path.join(VERIF, "tools/mechfacts/target/debug/mechfacts")
 MECHSYN = os.path.join(VERIF, "tools/mechsyn/target/release/mechsyn")
 HASH_EXT = (".rs", ".toml", ".lock")
@@ -57,6 +57,14 @@ def tree_hash(root=REPO):
             with open(t, "rb") as f:
                 h.update(hashlib.sha256(f.read()).digest())
     return h.hexdigest()[:20]
+
+
+def tools_hash():
+    h = hashlib.sha256()
+    for t in (DRIVER, MECHSYN):
+        with open(t, "rb") as f:
+            h.update(hashlib.sha256(f.read()).digest())
+    return h.hexdigest()[:16]
 
 
 def sysroot():
@@ -108,7 +116,7 @@ def normalise(scratch_repo, stderr_text):
         with open(p, "wb") as f:
             f.write(b"\n".join(lines))
         n += 1
-    return n
+    return n, sorted({k[0] for k in seen})
 
 
 def run_cargo(scratch_repo, outdir, extra_args=()):
@@ -149,53 +157,104 @@ def ensure_facts(force=False):
             return out
         t0 = time.time()
         log("tree state %s: running pipeline" % h)
-        tmp = out + ".tmp"
-        shutil.rmtree(tmp, ignore_errors=True)
+        cur = os.path.join(CACHE, "facts", "current")
+        os.makedirs(cur, exist_ok=True)
         shutil.rmtree(out, ignore_errors=True)
-        os.makedirs(tmp)
         scratch_repo = os.path.join(SCRATCH, "repo")
         os.makedirs(SCRATCH, exist_ok=True)
-        try:
-            subprocess.check_call(["rsync", "-a", "--delete", "--exclude", "target", "--exclude", ".git", REPO + "/", scratch_repo + "/"])
-            removed = 0
-            for attempt in range(6):
-                clear_fingerprints()
-                r = run_cargo(scratch_repo, tmp)
-                if r.returncode == 0:
-                    break
-                k = normalise(scratch_repo, r.stderr)
-                if k == 0:
-                    errs = [l for l in r.stderr.splitlines() if l.startswith("error")][:20]
-                    raise InfraError("the tree does not compile under the analysis toolchain:\n" + "\n".join(errs) + "\n" + r.stderr[-2000:])
-                removed += k
-                log("normalised %d `;` tokens in the scratch copy, retrying" % k)
+        # incremental: the scratch copy and cargo's target dir persist; only files whose CONTENT changed are
+        # re-copied and touched, so cargo re-invokes the driver for exactly the crates that need it and the
+        # fact files of untouched crates (written when they were last compiled from identical sources) stay valid.
+        marker = os.path.join(cur, "STATE")
+        state = {}
+        if os.path.exists(marker):
+            try:
+                state = json.load(open(marker))
+            except Exception:
+                state = {}
+        if state.get("scratch") != scratch_repo or not os.path.isdir(scratch_repo) or state.get("tools") != tools_hash():
+            # no trustworthy incremental state: start from scratch
+            shutil.rmtree(scratch_repo, ignore_errors=True)
+            shutil.rmtree(cur, ignore_errors=True)
+            os.makedirs(cur)
+            clear_fingerprints()
+        # files normalised in the scratch copy (§9) are left alone while their /repo original is unchanged
+        keep = []
+        normd = dict(state.get("normalised", {}))
+        for rel, sha in list(normd.items()):
+            try:
+                with open(os.path.join(REPO, rel), "rb") as f:
+                    same = hashlib.sha256(f.read()).hexdigest() == sha
+            except OSError:
+                same = False
+            if same and os.path.exists(os.path.join(scratch_repo, rel)):
+                keep += ["--exclude", "/" + rel]
             else:
-                raise InfraError("normalisation did not converge")
-            for f in os.listdir(tmp):
-                if ".tmp" in f:
-                    os.remove(os.path.join(tmp, f))
-            missing = [e for e in EXPECTED if not os.path.exists(os.path.join(tmp, e + ".mir.jsonl"))]
-            if missing:
-                raise InfraError("fact files missing for: %s" % missing)
-            missing = [e for e in EXPECTED if not os.path.exists(os.path.join(tmp, e + ".expanded.rs"))]
-            if missing:
-                raise InfraError("expanded sources missing for: %s" % missing)
-            # syn facts
-            exp = sorted(f for f in os.listdir(tmp) if f.endswith(".expanded.rs"))
-            r = subprocess.run([MECHSYN, tmp] + exp, stdout=subprocess.PIPE, stderr=subprocess.PIPE, text=True)
+                del normd[rel]
+        r = subprocess.run(["rsync", "-a", "--checksum", "--delete", "--itemize-changes", "--exclude", "target", "--exclude", ".git"] + keep +
+                           [REPO + "/", scratch_repo + "/"], stdout=subprocess.PIPE, text=True, check=True)
+        now = time.time()
+        for ln in r.stdout.splitlines():
+            if ln.startswith(">f"):
+                fp = os.path.join(scratch_repo, ln.split(" ", 1)[1])
+                if os.path.exists(fp):
+                    os.utime(fp, (now, now))
+        if os.path.exists(marker):
+            os.remove(marker)
+        removed = 0
+        for attempt in range(6):
+            r = run_cargo(scratch_repo, cur)
+            if r.returncode == 0:
+                break
+            k, files = normalise(scratch_repo, r.stderr)
+            for rel in files:
+                with open(os.path.join(REPO, rel), "rb") as f:
+                    normd[rel] = hashlib.sha256(f.read()).hexdigest()
+            if k == 0:
+                errs = [l for l in r.stderr.splitlines() if l.startswith("error")][:20]
+                raise InfraError("the tree does not compile under the analysis toolchain:\n" + "\n".join(errs) + "\n" + r.stderr[-2000:])
+            removed += k
+            log("normalised %d `;` tokens in the scratch copy, retrying" % k)
+        else:
+            raise InfraError("normalisation did not converge")
+        for f in os.listdir(cur):
+            if ".tmp" in f:
+                os.remove(os.path.join(cur, f))
+        missing = [e for e in EXPECTED if not os.path.exists(os.path.join(cur, e + ".mir.jsonl"))]
+        if missing:
+            raise InfraError("fact files missing for: %s" % missing)
+        missing = [e for e in EXPECTED if not os.path.exists(os.path.join(cur, e + ".expanded.rs"))]
+        if missing:
+            raise InfraError("expanded sources missing for: %s" % missing)
+        # syn facts, only for expanded files newer than their syn file
+        exp = []
+        for f in sorted(os.listdir(cur)):
+            if f.endswith(".expanded.rs"):
+                sj = os.path.join(cur, f.replace(".expanded.rs", ".syn.jsonl"))
+                if not os.path.exists(sj) or os.path.getmtime(sj) < os.path.getmtime(os.path.join(cur, f)):
+                    exp.append(f)
+        if exp:
+            r = subprocess.run([MECHSYN, cur] + exp, stdout=subprocess.PIPE, stderr=subprocess.PIPE, text=True)
             if r.returncode != 0:
                 raise InfraError("mechsyn failed: " + r.stderr[-3000:])
-            meta = {"hash": h, "normalised_tokens": removed, "wall_s": round(time.time() - t0, 1),
-                    "scratch": scratch_repo, "files": sorted(os.listdir(tmp))}
-            with open(os.path.join(tmp, "DONE"), "w") as f:
-                json.dump(meta, f)
-            os.rename(tmp, out)
-        finally:
-            shutil.rmtree(SCRATCH, ignore_errors=True)
+        json.dump({"scratch": scratch_repo, "tools": tools_hash(), "hash": h, "normalised": normd}, open(marker, "w"))
+        # snapshot (hard links; fact files are replaced by rename, never rewritten in place)
+        tmp = out + ".tmp"
+        shutil.rmtree(tmp, ignore_errors=True)
+        os.makedirs(tmp)
+        for f in os.listdir(cur):
+            if f != "STATE":
+                os.link(os.path.join(cur, f), os.path.join(tmp, f))
+        meta = {"hash": h, "normalised_tokens": removed, "wall_s": round(time.time() - t0, 1),
+                "scratch": scratch_repo, "recompiled": sorted(f for f in os.listdir(cur) if f.endswith(".mir.jsonl") and os.path.getmtime(os.path.join(cur, f)) >= t0),
+                "files": sorted(os.listdir(tmp))}
+        with open(os.path.join(tmp, "DONE"), "w") as f:
+            json.dump(meta, f)
+        os.rename(tmp, out)
         # keep only the 3 most recent fact dirs
         fd = os.path.join(CACHE, "facts")
-        ds = sorted((os.path.getmtime(os.path.join(fd, d)), d) for d in os.listdir(fd))
-        for _, d in ds[:-3]:
+        ds = sorted((os.path.getmtime(os.path.join(fd, d)), d) for d in os.listdir(fd) if d != "current")
+        for _, d in ds[:-4]:
             shutil.rmtree(os.path.join(fd, d), ignore_errors=True)
         log("pipeline done in %.1fs" % (time.time() - t0))
         return out
@@ -205,6 +264,13 @@ def ensure_facts(force=False):
 
 
 if __name__ == "__main__":
+    if "--setup" in sys.argv:
+        try:
+            build_tools()
+        except InfraError as e:
+            sys.stderr.write("INFRA-ERROR: %s\n" % e)
+            sys.exit(2)
+        sys.exit(0)
     try:
         print(ensure_facts(force="--force" in sys.argv))
     except InfraError as e:
